@@ -44,7 +44,9 @@ def run(ctx: Ctx) -> None:
             leaf_loop = None
             for lp in loops:  # innermost first
                 it = ast.unparse(lp.iter)
-                if (isinstance(lp.iter, ast.Call) and isinstance(lp.iter.func, ast.Name) and lp.iter.func.id == "leaf_places") or it in LEAF_KEYED_ITEMS:
+                # `leaf_places(p)`, also wrapped: list(leaf_places(p)), sorted(leaf_places(p), key=…), reversed(…)
+                over_leaves = any(isinstance(c, ast.Call) and isinstance(c.func, ast.Name) and c.func.id == "leaf_places" for c in ast.walk(lp.iter))
+                if over_leaves or it in LEAF_KEYED_ITEMS:
                     leaf_loop = lp
                     break
             key = f"{f.qualname}#{n.func.id}-decided-per-leaf"
